@@ -30,6 +30,11 @@ pub struct Plan {
     pub max_recv: usize,
     /// harness policy: probability (of 8) that a received guard is retained once
     pub retain_p: u32,
+    /// length of the sender's buffer (what `alloc()` hands out)
+    pub send_buf_len: usize,
+    /// Some(c): the buffers are built with `IoBuffer::new(pipe, c, ALIGN)` instead of `::io(pipe, max_msg_len)`
+    pub send_cap: Option<usize>,
+    pub recv_cap: Option<usize>,
     /// values whose fresh emplacement did not validate in its own buffer (value, size())
     #[serde(skip)]
     pub anomalies: Vec<(Val, usize)>,
@@ -91,7 +96,11 @@ pub fn make_plan<M: ZooMsg + ?Sized>(d: &mut Decider, stats: &mut Stats, nspec: 
         NSpec::UpTo(m) => d.below(St::Cfg, m + 1) as usize,
         NSpec::Exactly(m) => m as usize,
     };
-    let cap = 2 * max_send.max(M::MIN_SIZE);
+    // how the buffers are constructed: through `::io(pipe, max_msg_len)` (capacity 2x), or
+    // explicitly with "any buffer capacity that can hold the largest message"
+    let explicit = d.chance(St::Cfg, 1, 3);
+    let send_cap = if explicit { Some(max_send.max(M::MIN_SIZE) + [0usize, M::ALIGN, 5][d.weighted(St::Cfg, &[3, 1, 1])]) } else { None };
+    let cap = send_cap.unwrap_or(2 * max_send.max(M::MIN_SIZE));
     let mut scratch = AlignedBytes::new(cap, M::ALIGN);
     let mut msgs = Vec::with_capacity(n_msgs);
     let mut anomalies: Vec<(Val, usize)> = Vec::new();
@@ -200,7 +209,8 @@ pub fn make_plan<M: ZooMsg + ?Sized>(d: &mut Decider, stats: &mut Stats, nspec: 
     let rx = [0usize, 1, M::ALIGN, longest, 3, 100];
     let max_recv = longest + rx[d.weighted(St::Cfg, &[4, 2, 2, 2, 1, 1])];
     let retain_p = [0u32, 1, 3][d.weighted(St::Cfg, &[3, 1, 1])];
-    Plan { type_name: M::NAME, align: M::ALIGN, min_size: M::MIN_SIZE, msgs, max_send, max_recv, retain_p, anomalies }
+    let recv_cap = if explicit { Some(longest.max(M::MIN_SIZE) + [0usize, 1, M::ALIGN, 7, longest][d.weighted(St::Cfg, &[4, 1, 2, 1, 1])]) } else { None };
+    Plan { type_name: M::NAME, align: M::ALIGN, min_size: M::MIN_SIZE, msgs, max_send, max_recv, retain_p, send_buf_len: cap, send_cap, recv_cap, anomalies }
 }
 
 /// What the harness does after a failed `send()` / `recv()` (seeded policy).
@@ -219,7 +229,10 @@ fn err_kind_name(e: &std::io::Error) -> String {
 
 pub fn sender_blocking<M: ZooMsg + ?Sized>(sh: Shared, plan: Arc<Plan>) {
     let r = guarded(|| {
-        let mut sender = Sender::<M, _>::io(SimWriter::new(sh.clone()), plan.max_send);
+        let mut sender = match plan.send_cap {
+            Some(c) => Sender::<M, _>::new(flatty_io::IoBuffer::new(SimWriter::new(sh.clone()), c, M::ALIGN)),
+            None => Sender::<M, _>::io(SimWriter::new(sh.clone()), plan.max_send),
+        };
         let mut i = 0usize;
         let mut resends = 0u32;
         while i < plan.msgs.len() {
@@ -246,13 +259,13 @@ pub fn sender_blocking<M: ZooMsg + ?Sized>(sh: Shared, plan: Arc<Plan>) {
             }
             let size = g.size();
             let bytes = g.as_bytes();
-            if size > bytes.len() || size != mp.len {
+            if size >= bytes.len() + M::ALIGN || size != mp.len {
                 lock(&sh).harness_error = Some(format!("message {}: size() {} but planned {} (view {})", i, size, mp.len, bytes.len()));
                 return;
             }
-            let frame = bytes[..size].to_vec();
+            let frame = bytes[..size.min(bytes.len())].to_vec();
             let val = g.read();
-            lock(&sh).begin_send(i, frame, val, poisoned);
+            lock(&sh).begin_send(i, frame, size, val, poisoned);
             let res = guarded(|| g.send());
             let win = sender.verif_buffer().verif_state();
             let (result, panicked, stop) = match res {
@@ -317,7 +330,10 @@ fn inspect<M: ZooMsg + ?Sized>(m: &M) -> Result<(usize, usize, Val, bool, Option
 
 pub fn receiver_blocking<M: ZooMsg + ?Sized>(sh: Shared, plan: Arc<Plan>) {
     let r = guarded(|| {
-        let mut rx = Receiver::<M, _>::io(SimReader::new(sh.clone()), plan.max_recv);
+        let mut rx = match plan.recv_cap {
+            Some(c) => Receiver::<M, _>::new(flatty_io::IoBuffer::new(SimReader::new(sh.clone()), c, M::ALIGN)),
+            None => Receiver::<M, _>::io(SimReader::new(sh.clone()), plan.max_recv),
+        };
         let mut retries = 0u32;
         let mut parse_seen = 0u32;
         loop {
@@ -426,7 +442,10 @@ pub fn receiver_blocking<M: ZooMsg + ?Sized>(sh: Shared, plan: Arc<Plan>) {
 // ---- async parties --------------------------------------------------------------------------
 
 pub async fn sender_async<M: ZooMsg + ?Sized>(sh: Shared, plan: Arc<Plan>) {
-    let mut sender = AsyncSender::<M, _>::io(SimAsyncWriter::new(sh.clone()), plan.max_send);
+    let mut sender = match plan.send_cap {
+        Some(c) => AsyncSender::<M, _>::new(flatty_io::IoBuffer::new(SimAsyncWriter::new(sh.clone()), c, M::ALIGN)),
+        None => AsyncSender::<M, _>::io(SimAsyncWriter::new(sh.clone()), plan.max_send),
+    };
     let mut i = 0usize;
     let mut resends = 0u32;
     while i < plan.msgs.len() {
@@ -453,13 +472,13 @@ pub async fn sender_async<M: ZooMsg + ?Sized>(sh: Shared, plan: Arc<Plan>) {
         }
         let size = g.size();
         let bytes = g.as_bytes();
-        if size > bytes.len() || size != mp.len {
+        if size >= bytes.len() + M::ALIGN || size != mp.len {
             lock(&sh).harness_error = Some(format!("message {}: size() {} but planned {} (view {})", i, size, mp.len, bytes.len()));
             return;
         }
-        let frame = bytes[..size].to_vec();
+        let frame = bytes[..size.min(bytes.len())].to_vec();
         let val = g.read();
-        lock(&sh).begin_send(i, frame, val, poisoned);
+        lock(&sh).begin_send(i, frame, size, val, poisoned);
         // a panic inside the await unwinds the task; the executor records it and the oracle
         // attributes it to the attempt in flight
         let res = g.send().await;
@@ -495,7 +514,10 @@ pub async fn sender_async<M: ZooMsg + ?Sized>(sh: Shared, plan: Arc<Plan>) {
 }
 
 pub async fn receiver_async<M: ZooMsg + ?Sized>(sh: Shared, plan: Arc<Plan>) {
-    let mut rx = AsyncReceiver::<M, _>::io(SimAsyncReader::new(sh.clone()), plan.max_recv);
+    let mut rx = match plan.recv_cap {
+        Some(c) => AsyncReceiver::<M, _>::new(flatty_io::IoBuffer::new(SimAsyncReader::new(sh.clone()), c, M::ALIGN)),
+        None => AsyncReceiver::<M, _>::io(SimAsyncReader::new(sh.clone()), plan.max_recv),
+    };
     let mut retries = 0u32;
     let mut parse_seen = 0u32;
     loop {
